@@ -457,6 +457,7 @@ class GLRParser(Parser):
                     head.position,
                     head.position + len(head.token_ahead),
                     token=head.token_ahead,
+                    layout_content=head.layout_content_ahead,
                 )
                 if self.dynamic_filter and not self._call_dynamic_filter(
                     parent, head.state, to_state, SHIFT
@@ -762,6 +763,7 @@ class Parent:
         "_ambiguities",
         "production",
         "token",
+        "_layout_content",
     ]
 
     def __init__(
@@ -773,9 +775,13 @@ class Parent:
         possibilities=None,
         production=None,
         token=None,
+        layout_content=None,
     ):
         self.root = root
         self.head = head
+        # Layout before a shifted token. Heads at different positions may
+        # shift into the same head so this can't be kept on the head.
+        self._layout_content = layout_content
         self.start_position = start_position
         self.end_position = end_position if end_position is not None else start_position
 
@@ -879,6 +885,8 @@ class Parent:
 
     @property
     def layout_content(self):
+        if self._layout_content is not None:
+            return self._layout_content
         return self.head.layout_content
 
     @property
